@@ -7,6 +7,7 @@ import IpcHub.Lemmas.Hls
 import IpcHub.Lemmas.HlsFrames
 import IpcHub.Lemmas.HlsKey
 import IpcHub.Lemmas.HlsStore
+import IpcHub.Lemmas.HlsDisk
 import IpcHub.Lemmas.HlsText
 import IpcHub.Model.HlsInst
 namespace IpcHub.Props.C10
@@ -16,7 +17,8 @@ open IpcHub.Ts IpcHub.Hls IpcHub.HlsLemmas
     recognised; three segments are kept; a segment shorter than 100 ms would be dropped;
     memorySegmentFile.get and Playlist.M3u8 hand out private copies (not the pooled buffers);
     every access to the segment list is under the playlist lock; the persistent file is flushed
-    before it is closed; reapSegment closes, opens, then flushes the audio cache; the caller's
+    before it is closed; segmentClose closes the finished file before it lists the segment;
+    reapSegment closes, opens, then flushes the audio cache; the caller's
     token is query-escaped in the segment URIs; the first segment is timed from its first frame;
     config.HlsFragment() never yields less than one second. -/
 theorem c10_source_facts :
@@ -26,6 +28,7 @@ theorem c10_source_facts :
     IpcHub.Gen.lockAddSegment = true ∧ IpcHub.Gen.lockClose = true ∧
     IpcHub.Gen.rlockM3u8 = true ∧ IpcHub.Gen.rlockSegment = true ∧
     IpcHub.Gen.persistentFlushBeforeClose = true ∧
+    IpcHub.Gen.segmentClosedBeforeListed = true ∧
     IpcHub.Gen.reapOrder = ["segmentClose", "segmentOpen", "flushAudioCache"] ∧
     genCfg.tokenEscaped = true ∧ genCfg.firstFromFrame = true ∧ 1 ≤ genCfg.minFragment := by
   decide
@@ -275,6 +278,41 @@ theorem c10_m3u8_alias_counterexample :
       = some [0x62, 0x62] := by
   decide
 
+/-- Fetch during roll-over, disk storage (disk-file LTS `Model/HlsDisk.lean`): for EVERY sequence of
+    frames and roll-overs, EVERY buffering policy of the 64 KiB writer (how much of the buffered
+    bytes each write passes on to the file is arbitrary) and EVERY point at which another goroutine
+    can be scheduled between two atomic steps of the generator (segmentClose: take the open segment,
+    close its file, list it; segmentOpen) — with the regenerated fact that segmentClose closes
+    (flushes) the file BEFORE the segment enters the playlist — whatever `Playlist.Segment(q)`
+    delivers for a listed number `q` is the whole content of the listed file of that number: all
+    bytes ever written to it, none of them still in the writer's buffer. -/
+theorem c10_disk_fetch_complete (acts : List HlsDisk.Act) :
+    ∀ st ∈ HlsDisk.observable IpcHub.Gen.segmentClosedBeforeListed HlsDisk.init acts,
+      ∀ q b, HlsDisk.fetch st q = some b → ∃ f ∈ st.listed, f.seq = q ∧ b = f.content := by
+  have e : IpcHub.Gen.segmentClosedBeforeListed = true := by decide
+  rw [e]
+  intro st hst q b h
+  exact HlsDisk.fetch_flushed st q b (HlsDisk.observable_closeFirst acts _ HlsDisk.inv_init st hst) h
+
+/-- … and the content of the open segment only ever grows by the frames written to it; closing
+    (flushing) a file does not change its content. -/
+theorem c10_disk_content (st : HlsDisk.St) (f : HlsDisk.File) (d : HlsDisk.Bytes) (k : Nat)
+    (h : st.current = some f) :
+    (∃ f', (HlsDisk.step st (.write d k)).current = some f' ∧ f'.seq = f.seq ∧ f'.content = f.content ++ d)
+    ∧ (HlsDisk.flush f).content = f.content :=
+  ⟨HlsDisk.write_content st f d k h, HlsDisk.flush_content f⟩
+
+/-- Listing before closing (`defer curr.file.close()` in segmentClose) breaks it: three bytes are
+    written to segment 1 and stay in the writer; at the schedule point between "listed" and "closed"
+    a client is served an empty segment 1.  In the source's order every observable state serves
+    either nothing (not listed yet) or all three bytes. -/
+theorem c10_disk_listed_before_closed_counterexample :
+    let acts : List HlsDisk.Act := [.frame [1, 2, 3] 0, .rollover 2]
+    (HlsDisk.observable false HlsDisk.init acts).any (fun st => HlsDisk.fetch st 1 == some []) = true
+    ∧ (HlsDisk.observable true HlsDisk.init acts).all
+        (fun st => HlsDisk.fetch st 1 == none || HlsDisk.fetch st 1 == some [1, 2, 3]) = true := by
+  decide
+
 /-- Bounded storage: at any time at most 3 finished segments and the open one exist; all other
     segments ever created are in `deleted` (file removed / buffer returned) or `dropped`. -/
 theorem c10_bounded (frag rate : Nat) (fs : List Frame) (g : Gen)
@@ -287,6 +325,11 @@ theorem c10_bounded (frag rate : Nat) (fs : List Frame) (g : Gen)
 
 /-- a token with reserved characters meets the hypothesis of `c10_token_roundtrip` -/
 example : ∀ c ∈ "k=v&x #\n".toList, c.toNat < 256 := by decide
+
+/-- the hypothesis of `c10_disk_fetch_complete` is met with a fetch that delivers bytes: after two
+    frames (the writer passing 2 of the first 3 bytes on) and a roll-over, segment 1 is served whole -/
+example : ∃ st ∈ HlsDisk.observable true HlsDisk.init [.frame [1, 2, 3] 2, .frame [4] 0, .rollover 2],
+    HlsDisk.fetch st 1 = some [1, 2, 3, 4] := by decide
 
 /-- a run of the model on a concrete stream (two GOPs of one second, fragment 1 s) succeeds
     and completes a segment -/
